@@ -37,7 +37,7 @@ def step (_ : Unit) (fields : List String) (impl : String) : Unit × Reply :=
     -- a re-used id: the answered first request and the pending second one each get exactly their response; the
     -- clean-up of the first request's cancelled context removes nothing of the second (C07_cleanup_only_own)
     let m := kvs impl
-    let ok := nat m "a" == 1 && nat m "b" == 1 && nat m "ordinary" == 0 && nat m "panics" == 0
+    let ok := nat m "a" == 1 && nat m "b" == 1 && nat m "ordinary" == 0 && nat m "panics" == 0 && nat m "blocked" == 0
     ((), ⟨"accepted-by-model=" ++ boolStr ok, ok, true, ok, "-"⟩)
   | _ => ((), .bad)
 
